@@ -356,8 +356,19 @@ func (vfs *MemFS) Link(oldname, newname string) error {
 		return &os.LinkError{Op: op, Old: oldname, New: newname, Err: err}
 	}
 
+	part := pi.Part()
+	if nParent.children[part] != nil {
+		// newname was created after the path was resolved.
+		err := vfs.err.FileExists
+		if vfs.OSType() == avfs.OsWindows {
+			err = avfs.ErrWinAlreadyExists
+		}
+
+		return &os.LinkError{Op: op, Old: oldname, New: newname, Err: err}
+	}
+
 	c.mu.Lock()
-	nParent.addChild(pi.Part(), c)
+	nParent.addChild(part, c)
 
 	c.nlink++
 	c.mu.Unlock()
@@ -929,9 +940,15 @@ func (vfs *MemFS) Symlink(oldname, newname string) error {
 		return &os.LinkError{Op: op, Old: oldname, New: newname, Err: vfs.err.PermDenied}
 	}
 
+	part := pi.Part()
+	if parent.children[part] != nil {
+		// newname was created after the path was resolved.
+		return &os.LinkError{Op: op, Old: oldname, New: newname, Err: vfs.err.FileExists}
+	}
+
 	link := vfs.Clean(oldname)
 
-	vfs.createSymlink(parent, pi.Part(), link)
+	vfs.createSymlink(parent, part, link)
 
 	return nil
 }
